@@ -7,6 +7,7 @@
         -> position (3) orientation (3) covariance (36), then the mean (6) at component k +h_k and -h_k,
            k = 0..5, h = 1 for positions and 2^-17 for angles   (12 x 6)
      ls <m> <n> <J m*n> <diagonal of Ac n> <variance> <inverse of J^T J, n*n (oracle argument)>
+     lsg <m> <n> <J m*n> <Ac n*n row-major> <variance> <inverse of J^T J, n*n>
         -> computeEstimateCovariance (n*n); "contract" if the oracle argument is not the inverse
    a non-finite result prints "none". *)
 open Numf
@@ -82,6 +83,18 @@ let () =
            let ac : float mat = fun i k -> let i = int_of_nat i and k = int_of_nat k in if i = k && i < nn then d.(i) else 0.0 in
            let var = a.(2 + m * nn + nn) in
            let inv = mat_of_array nn a (2 + m * nn + nn + 1) in
+           let jtj = memo nn (ls_JtJ n (nat_of_int m) (nat_of_int nn) j) in
+           let res = ls_inv_residual n (nat_of_int nn) jtj inv in
+           if not (res <= 1e-9) then buf := ["contract"]
+           else putg nn (ls_covariance n (nat_of_int nn) ac inv var)
+         end
+       | "lsg" when Array.length a >= 2 ->
+         let m = int_of_float a.(0) and nn = int_of_float a.(1) in
+         if Array.length a <> 2 + m * nn + nn * nn + 1 + nn * nn then buf := ["?"] else begin
+           let j = rect_of_array m nn a 2 in
+           let ac = mat_of_array nn a (2 + m * nn) in
+           let var = a.(2 + m * nn + nn * nn) in
+           let inv = mat_of_array nn a (2 + m * nn + nn * nn + 1) in
            let jtj = memo nn (ls_JtJ n (nat_of_int m) (nat_of_int nn) j) in
            let res = ls_inv_residual n (nat_of_int nn) jtj inv in
            if not (res <= 1e-9) then buf := ["contract"]
